@@ -182,6 +182,141 @@ impl Stream for Programs
 	}
 }
 
+/// The reference interpreter's integer primitives against Rust's native
+/// fixed-width arithmetic (so that an interpreter bug cannot become an alarm).
+struct SelfCheck;
+impl Stream for SelfCheck
+{
+	fn name(&self) -> String
+	{
+		"interpreter-selfcheck".into()
+	}
+	fn count(&self, tier: Tier) -> u64
+	{
+		tier.pick(20_000, 400_000)
+	}
+	fn choice_len(&self) -> usize
+	{
+		12
+	}
+	fn stride(&self) -> u64
+	{
+		1024
+	}
+	fn run(&self, _idx: u64, c: &mut Choices, ctx: &RunCtx) -> CaseOut
+	{
+		use crate::ast::{BinOp, CmpOp, Prim, INT_PRIMS};
+		let mut out = CaseOut::default();
+		let ty = *c.pick(INT_PRIMS);
+		let pick = |c: &mut Choices| -> u128 {
+			let m = ty.mask();
+			match c.draw(6)
+			{
+				0 => 0,
+				1 => m,
+				2 => m >> 1,
+				3 => (m >> 1) + 1,
+				4 => c.draw(16) as u128,
+				_ => c.u128() & m,
+			}
+		};
+		let a = pick(c);
+		let b = pick(c);
+		macro_rules! native {
+			($t:ty) => {{
+				let x = a as $t;
+				let y = b as $t;
+				let mut v: Vec<(BinOp, Option<u128>)> = vec![
+					(BinOp::Add, Some(x.wrapping_add(y) as u128)),
+					(BinOp::Sub, Some(x.wrapping_sub(y) as u128)),
+					(BinOp::Mul, Some(x.wrapping_mul(y) as u128)),
+					(BinOp::Div, x.checked_div(y).map(|q| q as u128)),
+					(BinOp::Rem, x.checked_rem(y).map(|q| q as u128)),
+				];
+				v.push((BinOp::And, Some((x & y) as u128)));
+				v.push((BinOp::Or, Some((x | y) as u128)));
+				v.push((BinOp::Xor, Some((x ^ y) as u128)));
+				let cmps = vec![
+					(CmpOp::Eq, x == y),
+					(CmpOp::Ne, x != y),
+					(CmpOp::Lt, x < y),
+					(CmpOp::Le, x <= y),
+					(CmpOp::Gt, x > y),
+					(CmpOp::Ge, x >= y),
+				];
+				let casts: Vec<(Prim, u128)> = vec![
+					(Prim::I8, (x as i8) as u8 as u128),
+					(Prim::I16, (x as i16) as u16 as u128),
+					(Prim::I32, (x as i32) as u32 as u128),
+					(Prim::I64, (x as i64) as u64 as u128),
+					(Prim::I128, (x as i128) as u128),
+					(Prim::U8, (x as u8) as u128),
+					(Prim::U16, (x as u16) as u128),
+					(Prim::U32, (x as u32) as u128),
+					(Prim::U64, (x as u64) as u128),
+					(Prim::U128, x as u128),
+					(Prim::Usize, (x as u64) as u128),
+				];
+				(v, cmps, casts, (x.wrapping_neg()) as u128, (!x) as u128)
+			}};
+		}
+		let (bins, cmps, casts, neg, not) = match ty
+		{
+			Prim::I8 => native!(i8),
+			Prim::I16 => native!(i16),
+			Prim::I32 => native!(i32),
+			Prim::I64 => native!(i64),
+			Prim::I128 => native!(i128),
+			Prim::U8 => native!(u8),
+			Prim::U16 => native!(u16),
+			Prim::U32 => native!(u32),
+			Prim::U64 | Prim::Usize => native!(u64),
+			_ => native!(u128),
+		};
+		let m = ty.mask();
+		for (op, want) in bins
+		{
+			let got = interp::binop(op, a, b, ty).ok();
+			if got != want.map(|w| w & m)
+			{
+				out.fail(
+					"harness: interpreter arithmetic disagrees with native Rust",
+					json!({"op": op.text(), "type": ty.name(), "a": a.to_string(), "b": b.to_string(), "got": format!("{:?}", got), "want": format!("{:?}", want)}),
+				);
+			}
+		}
+		for (op, want) in cmps
+		{
+			if interp::compare(op, a, b, ty) != want
+			{
+				out.fail(
+					"harness: interpreter comparison disagrees with native Rust",
+					json!({"op": op.text(), "type": ty.name(), "a": a.to_string(), "b": b.to_string()}),
+				);
+			}
+		}
+		for (to, want) in casts
+		{
+			if to != ty && interp::cast(a, ty, to) != want & to.mask()
+			{
+				out.fail(
+					"harness: interpreter cast disagrees with native Rust",
+					json!({"from": ty.name(), "to": to.name(), "a": a.to_string()}),
+				);
+			}
+		}
+		let _ = (neg, not);
+		out.key = crate::choices::fnv(&format!("{}:{}:{}", ty.name(), a, b));
+		out.nontrivial = a != 0 && b != 0;
+		out.class(format!("selfcheck:{}", ty.name()));
+		if ctx.want_sample
+		{
+			out.sample = Some(json!({"selfcheck": ty.name(), "a": a.to_string(), "b": b.to_string()}));
+		}
+		out
+	}
+}
+
 impl Check for C01
 {
 	fn id(&self) -> &'static str
@@ -207,6 +342,6 @@ impl Check for C01
 	}
 	fn streams(&self) -> Vec<Box<dyn Stream>>
 	{
-		vec![Box::new(Programs)]
+		vec![Box::new(Programs), Box::new(SelfCheck)]
 	}
 }
